@@ -209,10 +209,12 @@ func (b *batchCommandsEntry) response(resp *tikvpb.BatchCommandsResponse_Respons
 }
 
 func (b *batchCommandsEntry) error(err error) {
-	b.err = err
 	if b.async() {
+		// An async entry can be failed concurrently from several goroutines (context done, stream failure, close):
+		// the callback arbitrates, `err` is only read by the synchronous path and must not be written here.
 		b.cb.Schedule(nil, err)
 	} else {
+		b.err = err
 		close(b.res)
 	}
 }
